@@ -55,7 +55,7 @@ def run(ck):
     ck.assumptions = ["expressions must be consumed in the full-expression that builds them (expr holds references)",
                       "shapes rejected by the compiler for a back end are outside the claim (table in coverage.accept_reject_table)"]
     vf.run_deps(ck, ['C03'])
-    return ck.finish(trusted=["coqc 8.16.1 kernel", "extraction + driver.ml", "generated h_expr harness (22 shapes x 4 destinations x poly/poly_p x 3 back ends)", "translator"],
+    return ck.finish(trusted=["coqc 8.16.1 kernel", "extraction + driver.ml", "generated h_expr harness (22 shapes x 4 destinations x poly/poly_p x 3 back ends)", "source readers: tools/dump_params (tables), cxx2coq.py (functors), cxxassign2coq.py (operator=(expr)), cxxopnodes2coq.py (expression nodes)"],
                      extra_cov={"params_sha": info})
 
 def replay(ck, rec):
